@@ -313,6 +313,17 @@ class Translator:
                 if o is not None:
                     out.append((c, None, o))
                     continue
+                if len(node.ops) == 1 and isinstance(node.ops[0], (ast.In, ast.NotIn)) and vals[1].kind == "const" and isinstance(vals[1].t, tuple):
+                    # x in (e1, e2, ...): disjunction of equalities over the (single-path) element expressions
+                    eqs = []
+                    for elt in vals[1].t:
+                        ps = self.expr_paths(elt, env, c, ctx)
+                        if len(ps) != 1 or ps[0][2] is not None:
+                            raise NotEncodable("membership test over a branching element")
+                        eqs.append(self.compare(ast.Eq(), vals[0], ps[0][1]))
+                    t = z3.Or(eqs) if eqs else z3.BoolVal(False)
+                    out.append((c, V("bool", t if isinstance(node.ops[0], ast.In) else z3.Not(t)), None))
+                    continue
                 if len(node.ops) == 1 and isinstance(node.ops[0], (ast.In, ast.NotIn)):
                     a, b = vals
                     if b.kind == "decstr" and a.kind == "const" and isinstance(a.t, str) and any(ch not in "-0123456789" for ch in a.t):
@@ -479,17 +490,29 @@ class Translator:
     def apply(self, f, args, env, c, ctx):
         if isinstance(f, ast.Name) and f.id not in env:
             n = f.id
-            if n == "round" and len(args) == 1:
+            if n in ("round", "int") and len(args) == 1 and args[0].kind == "fp":
+                # Python: int()/round() of NaN raises ValueError, of +-inf OverflowError
                 a = args[0]
-                return [(c, a if a.kind == "int" else V("int", fp_round_to_int(a.t), z3.fpRoundToIntegral(RNE, a.t)), None)]
+                nan_c = z3.And(c, z3.fpIsNaN(a.t))
+                inf_c = z3.And(c, z3.fpIsInf(a.t))
+                fin_c = z3.And(c, z3.Not(z3.fpIsNaN(a.t)), z3.Not(z3.fpIsInf(a.t)))
+                if n == "round":
+                    val = V("int", fp_round_to_int(a.t), z3.fpRoundToIntegral(RNE, a.t))
+                else:
+                    val = V("int", fp_to_int_trunc(a.t), z3.fpRoundToIntegral(RTZ, a.t))
+                return [(nan_c, None, Outcome(nan_c, "raise", exc="ValueError")),
+                        (inf_c, None, Outcome(inf_c, "raise", exc="OverflowError")),
+                        (fin_c, val, None)]
+            if n == "round" and len(args) == 1:
+                return [(c, args[0], None)]
             if n == "int" and len(args) == 1:
                 a = args[0]
                 if a.kind == "int":
                     return [(c, a, None)]
-                if a.kind == "fp":
-                    return [(c, V("int", fp_to_int_trunc(a.t), z3.fpRoundToIntegral(RTZ, a.t)), None)]
                 if a.kind == "decstr":
                     return [(c, V("int", a.t, a.fp), None)]
+            if n == "float" and len(args) == 1 and args[0].kind == "const" and isinstance(args[0].t, str):
+                return [(c, V("fp", fpval(float(args[0].t))), None)]
             if n == "float" and len(args) == 1:
                 a = args[0]
                 if a.kind == "decstr":
